@@ -92,7 +92,19 @@ Definition Represented (g : graph) (ar : list entry) (v : rv) : Prop :=
     PRef e "exampleOfWork" p /\ IsParam g mainE (rv_in v) (rv_param v) p /\
     ValOk g ar e x (rv_val v).
 
-Record wf_crate (g : graph) (ar : list entry) (vs : list rv) : Prop := {
+(* c is the ControlAction orchestrating step s *)
+Definition IsControl (c : json) (s : string) : Prop :=
+  HasType c "ControlAction" /\ exists j, get c "instrument" = Some j /\ ref_of j = Some s.
+
+(* consistent at step level: the step has a ControlAction, and every CreateAction it orchestrates lists at least
+   one result, and lists as result nothing but entities carrying the value the step produced *)
+Definition StepOk (g : graph) (ar : list entry) (v : sv) : Prop :=
+  (exists c, In c g /\ IsControl c (sv_step v)) /\
+  forall c aid a, In c g -> IsControl c (sv_step v) -> PRef c "object" aid -> Entity g aid a ->
+    (exists x, PRef a "result" x) /\
+    forall x, PRef a "result" x -> exists e, Entity g x e /\ ValOk g ar e x (sv_val v).
+
+Record wf_crate (g : graph) (ar : list entry) (vs : list rv) (ss : list sv) : Prop := {
   (* valid JSON-LD node objects: every element of @graph has a string @id *)
   wf_ids : forall e, In e g -> exists i, ent_id e = Some i;
   (* unique identifiers *)
@@ -102,5 +114,7 @@ Record wf_crate (g : graph) (ar : list entry) (vs : list rv) : Prop := {
   (* self-contained: every File entity is in the archive with the recorded checksum and size *)
   wf_files : forall e i, Entity g i e -> HasType e "File" -> RecordedOk ar e i;
   (* every input and output value of the run is represented *)
-  wf_values : forall v, In v vs -> Represented g ar v
+  wf_values : forall v, In v vs -> Represented g ar v;
+  (* consistent: a step's actions list as result what that step produced, nothing else *)
+  wf_steps : forall v, In v ss -> StepOk g ar v
 }.
